@@ -1,3 +1,338 @@
-/-! # C19 — property theorems (stub: not built yet) -/
+import PymtlVerif.Proofs.Arb
+/-!
+# C19 — round-robin arbiters grant exactly one requester, fairly
+
+Property theorems about `Model/Arb.lean` (`RoundRobinArbiter` = `hasEn := false`, `RoundRobinArbiterEn` =
+`hasEn := true`), for every number of requesters `n`, every request vector and every input history.
+
+`Pointer n s p` (from `Proofs/Arb.lean`): the priority register value `s` is `2^p` with `p < n`.
+`dist n p k = (k + n - p) % n`: cyclic distance from the pointer to input `k`.
+`advances hasEn inp = !hasEn || inp.en`: the enable seen by the priority update.
+-/
 namespace PV.C19
+open PV.Arb
+
+/-! ## the pointer stays one-hot in every reachable state -/
+
+/-- one cycle keeps the register a pointer, whatever the inputs are (reset included) -/
+theorem step_pointer (hasEn : Bool) {n s p : Nat} (hn : 0 < n) (inp : In) (hs : Pointer n s p) :
+    ∃ p', Pointer n (step hasEn n s inp) p' := by
+  unfold step
+  rcases cycle_cases hasEn inp hs with ⟨_, hc⟩ | ⟨k, hk, _, hc⟩
+  · rw [hc]
+    cases inp.reset
+    · exact ⟨p, hs⟩
+    · exact ⟨0, hn, rfl⟩
+  · rw [hc]
+    cases inp.reset
+    · cases advances hasEn inp
+      · exact ⟨p, hs⟩
+      · exact ⟨(k + 1) % n, Nat.mod_lt _ hn, rfl⟩
+    · exact ⟨0, hn, rfl⟩
+
+/-- a reset cycle makes the register point to input 0, from any previous value (also from the
+    uninitialised value 0 of a fresh simulation, which is not a pointer) -/
+theorem reset_pointer (hasEn : Bool) (n s0 : Nat) (inp : In) (hr : inp.reset = true) :
+    step hasEn n s0 inp = 2 ^ 0 := by
+  simp [step, cycle, regEnRst, hr]
+
+/-- C19_onehot_inv: every register value reachable through a reset is one-hot: exactly one `p < n`
+    has its bit set, and the value is `2^p` -/
+theorem onehot_inv (hasEn : Bool) (n : Nat) (hn : 2 ≤ n) (s : Nat) (h : Reachable hasEn n s) :
+    ∃ p, Pointer n s p ∧ (∀ i, bit s i = decide (i = p)) ∧ ∀ q, Pointer n s q → q = p := by
+  have key : ∃ p, Pointer n s p := by
+    induction h with
+    | reset s0 inp hr => exact ⟨0, by omega, reset_pointer hasEn n s0 inp hr⟩
+    | step inp _ ih =>
+      obtain ⟨p, hp⟩ := ih
+      exact step_pointer hasEn (by omega) inp hp
+  obtain ⟨p, hp⟩ := key
+  refine ⟨p, hp, ?_, ?_⟩
+  · intro i; rw [hp.2]; exact bit_two_pow p i
+  · intro q hq
+    have := hq.2; rw [hp.2] at this
+    exact (two_pow_inj this).symm
+
+/-- the same over input histories: after any history that contains a reset cycle — whatever came before
+    it, whatever comes after it (further resets included) — the register is a pointer -/
+theorem onehot_history (hasEn : Bool) (n : Nat) (hn : 2 ≤ n) (s0 : Nat) (pre post : List In) (r : In)
+    (hr : r.reset = true) : ∃ p, Pointer n (run hasEn n s0 (pre ++ r :: post)) p := by
+  rw [run_append]
+  show ∃ p, Pointer n (run hasEn n (step hasEn n (run hasEn n s0 pre) r) post) p
+  have h0 : ∃ p, Pointer n (step hasEn n (run hasEn n s0 pre) r) p :=
+    ⟨0, by omega, reset_pointer hasEn n _ r hr⟩
+  generalize step hasEn n (run hasEn n s0 pre) r = s at h0
+  induction post generalizing s with
+  | nil => exact h0
+  | cons x post ih =>
+    obtain ⟨p, hp⟩ := h0
+    exact ih _ (step_pointer hasEn (by omega) x hp)
+
+/-- without a reset the invariant is not established: from the uninitialised register value 0 nothing is
+    ever granted and the register stays 0 (why `Reachable` starts at a reset) -/
+theorem dead_before_reset (hasEn : Bool) (n reqs : Nat) (en : Bool) :
+    cycle hasEn n 0 ⟨false, en, reqs⟩ = ⟨0, 0, false, 0⟩ := by
+  have hk : ∀ i, kills (prioInt n 0) (reqsInt n reqs) i = true := by
+    intro i
+    induction i with
+    | zero => rfl
+    | succ i ih =>
+      rw [kills_succ]
+      have : prioInt n 0 i = false := by simp [prioInt, bit]
+      simp [this, ih]
+  have hg : grants n reqs 0 = 0 := by
+    unfold grants
+    apply pack_eq_zero
+    intro i _
+    have hp : ∀ j, prioInt n 0 j = false := by intro j; simp [prioInt, bit]
+    simp [grantBit, grantsInt, hp, hk]
+  simp only [cycle, hg, priorityEn, regEnRst]
+  cases hasEn <;> simp
+
+/-! ## the grant vector, for a register holding a pointer -/
+
+/-- C19_subset: only requesting inputs (and only bits below n) are granted -/
+theorem grants_subset {n s p : Nat} (reqs : Nat) (hs : Pointer n s p) (k : Nat)
+    (hg : bit (grants n reqs s) k = true) : k < n ∧ bit reqs k = true := by
+  obtain ⟨hp, rfl⟩ := hs
+  rw [bit_grants] at hg
+  simp only [Bool.and_eq_true, decide_eq_true_eq] at hg
+  exact ⟨hg.1, grantBit_subset hp k hg.1 hg.2⟩
+
+/-- C19_onehot0: at most one bit of `grants` is set -/
+theorem grants_onehot0 {n s p : Nat} (reqs : Nat) (hs : Pointer n s p) (k k' : Nat)
+    (hg : bit (grants n reqs s) k = true) (hg' : bit (grants n reqs s) k' = true) : k = k' := by
+  obtain ⟨hp, rfl⟩ := hs
+  rw [bit_grants] at hg hg'
+  simp only [Bool.and_eq_true, decide_eq_true_eq] at hg hg'
+  exact grantBit_unique hp k k' hg.1 hg'.1 hg.2 hg'.2
+
+/-- the same as a value: `grants` is 0 or a power of two below 2^n -/
+theorem grants_zero_or_onehot {n s p : Nat} (reqs : Nat) (hs : Pointer n s p) :
+    grants n reqs s = 0 ∨ ∃ k, k < n ∧ grants n reqs s = 2 ^ k := by
+  obtain ⟨hp, rfl⟩ := hs
+  rcases grants_cases reqs hp with ⟨hz, _⟩ | ⟨k, hk, hg, _⟩
+  · exact Or.inl hz
+  · exact Or.inr ⟨k, hk, hg⟩
+
+/-- C19_nonzero_iff: something is granted iff something is requested -/
+theorem grants_nonzero_iff {n s p : Nat} (reqs : Nat) (hs : Pointer n s p) :
+    grants n reqs s ≠ 0 ↔ ∃ k, k < n ∧ bit reqs k = true := by
+  obtain ⟨hp, rfl⟩ := hs
+  rcases grants_cases reqs hp with ⟨hz, hall⟩ | ⟨k, hk, hg, hgb⟩
+  · constructor
+    · intro h; exact absurd hz h
+    · rintro ⟨k, hk, hr⟩; rw [hall k hk] at hr; cases hr
+  · constructor
+    · intro _; exact ⟨k, hk, grantBit_subset hp k hk hgb⟩
+    · intro _; rw [hg]; exact two_pow_ne_zero k
+
+/-- C19_first_from_pointer: the granted input is the first requester at or after the pointer in cyclic
+    order: no requester is cyclically closer to the pointer -/
+theorem first_from_pointer {n s p : Nat} (reqs : Nat) (hs : Pointer n s p) (k : Nat)
+    (hg : bit (grants n reqs s) k = true) (j : Nat) (hj : j < n) (hr : bit reqs j = true) :
+    dist n p k ≤ dist n p j := by
+  obtain ⟨hp, rfl⟩ := hs
+  rw [bit_grants] at hg
+  simp only [Bool.and_eq_true, decide_eq_true_eq] at hg
+  exact grantBit_first hp k hg.1 hg.2 j hj hr
+
+/-- closed form of the whole kill-chain network: `grants = 2^k` exactly for the requester `k` that is
+    cyclically closest to the pointer (and `grants = 0` iff there is none, `grants_nonzero_iff`) -/
+theorem grants_closed_form {n s p : Nat} (reqs : Nat) (hs : Pointer n s p) (k : Nat) (hk : k < n) :
+    grants n reqs s = 2 ^ k ↔
+      (bit reqs k = true ∧ ∀ j, j < n → bit reqs j = true → dist n p k ≤ dist n p j) := by
+  have hs' := hs
+  obtain ⟨hp, rfl⟩ := hs
+  constructor
+  · intro h
+    have hb : bit (grants n reqs (2 ^ p)) k = true := by rw [h, bit_two_pow]; simp
+    exact ⟨(grants_subset reqs hs' k hb).2, fun j hj hr => first_from_pointer reqs hs' k hb j hj hr⟩
+  · rintro ⟨hr, hfirst⟩
+    rcases grants_cases reqs hp with ⟨_, hall⟩ | ⟨k', hk', hg, hgb⟩
+    · rw [hall k hk] at hr; cases hr
+    · have h1 := grantBit_first hp k' hk' hgb k hk hr
+      have h2 := hfirst k' hk' (grantBit_subset hp k' hk' hgb)
+      have : k' = k := dist_inj p k' k hp hk' hk (by omega)
+      rw [hg, this]
+
+/-! ## the pointer update -/
+
+/-- the wire `priority_en`: high iff something is granted (and, in the `En` variant, `en` is high) -/
+theorem prioEn_iff (hasEn : Bool) (n s : Nat) (inp : In) :
+    (cycle hasEn n s inp).prioEn = true ↔
+      ((cycle hasEn n s inp).grants ≠ 0 ∧ (hasEn = true → inp.en = true)) := by
+  simp only [cycle, priorityEn]
+  cases hasEn <;> simp
+
+/-- C19_pointer_update: reset → pointer 0; advancing (no reset, `priority_en` high) → the granted input is
+    some `k` and the new pointer is `(k+1) % n` (the grant vector rotated left by one); otherwise the
+    register keeps its value -/
+theorem pointer_update (hasEn : Bool) {n s p : Nat} (inp : In) (hs : Pointer n s p) :
+    (inp.reset = true → (cycle hasEn n s inp).next = 2 ^ 0) ∧
+    (inp.reset = false → (cycle hasEn n s inp).prioEn = true →
+        ∃ k, k < n ∧ (cycle hasEn n s inp).grants = 2 ^ k ∧ (cycle hasEn n s inp).next = 2 ^ ((k + 1) % n)) ∧
+    (inp.reset = false → (cycle hasEn n s inp).prioEn = false → (cycle hasEn n s inp).next = s) := by
+  rcases cycle_cases hasEn inp hs with ⟨_, hc⟩ | ⟨k, hk, _, hc⟩
+  · rw [hc]
+    refine ⟨?_, ?_, ?_⟩
+    · intro hr; simp [hr]
+    · intro _ h; cases h
+    · intro hr _; simp [hr]
+  · rw [hc]
+    refine ⟨?_, ?_, ?_⟩
+    · intro hr; simp [hr]
+    · intro hr ha
+      simp only at ha
+      exact ⟨k, hk, rfl, by simp [hr, ha]⟩
+    · intro hr ha
+      simp only at ha
+      simp [hr, ha]
+
+/-- `RoundRobinArbiterEn`: with `en` low (and no reset) the priority never moves, whatever is granted -/
+theorem en_low_holds (n s : Nat) (inp : In) (hr : inp.reset = false) (he : inp.en = false) :
+    step true n s inp = s := by
+  simp [step, cycle, priorityEn, regEnRst, hr, he]
+
+/-- `RoundRobinArbiter` ignores `en` altogether -/
+theorem plain_ignores_en (n s : Nat) (r e e' : Bool) (reqs : Nat) :
+    cycle false n s ⟨r, e, reqs⟩ = cycle false n s ⟨r, e', reqs⟩ := by
+  simp [cycle, priorityEn]
+
+/-! ## fairness -/
+
+/-- the cycles with `priority_en` high are, while input `i` keeps requesting, exactly the cycles whose
+    inputs enable the update (`en` high for the `En` variant, every cycle for the plain arbiter) -/
+theorem enCount_eq (hasEn : Bool) {n : Nat} (hn : 0 < n) (i : Nat) (hi : i < n) :
+    ∀ (h : List In) (s p : Nat), Pointer n s p →
+      (∀ inp ∈ h, inp.reset = false ∧ bit inp.reqs i = true) →
+      enCount (trace hasEn n s h) = (h.filter (advances hasEn)).length := by
+  intro h
+  induction h with
+  | nil => intro s p _ _; rfl
+  | cons inp h ih =>
+    intro s p hs hall
+    have hinp := hall inp (List.mem_cons_self ..)
+    have hrest : ∀ x ∈ h, x.reset = false ∧ bit x.reqs i = true :=
+      fun x hx => hall x (List.mem_cons_of_mem _ hx)
+    obtain ⟨p', hp'⟩ := step_pointer hasEn hn inp hs
+    simp only [trace, enCount_cons, ih _ p' hp' hrest]
+    rcases cycle_cases hasEn inp hs with ⟨hz, _⟩ | ⟨k, hk, _, hc⟩
+    · have := hz i hi; rw [hinp.2] at this; cases this
+    · rw [hc]
+      cases ha : advances hasEn inp <;> simp [ha]; omega
+
+/-- C19_fair, measure form: from any pointer position `p`, while input `i` keeps requesting (no reset),
+    `i` is granted in an advancing cycle that is preceded by at most `dist n p i` advancing cycles.
+    (`dist n p i` strictly decreases in every advancing cycle that grants someone else.) -/
+theorem fair_within (hasEn : Bool) {n : Nat} (i : Nat) (hi : i < n) :
+    ∀ (h : List In) (s p : Nat), Pointer n s p →
+      (∀ inp ∈ h, inp.reset = false ∧ bit inp.reqs i = true) →
+      dist n p i < enCount (trace hasEn n s h) →
+      ∃ pre c post, trace hasEn n s h = pre ++ c :: post ∧
+        c.prioEn = true ∧ bit c.grants i = true ∧ enCount pre ≤ dist n p i := by
+  have hn : 0 < n := by omega
+  intro h
+  induction h with
+  | nil => intro s p _ _ hc; simp [trace, enCount] at hc
+  | cons inp h ih =>
+    intro s p hs hall hcount
+    have hinp := hall inp (List.mem_cons_self ..)
+    have hrest : ∀ x ∈ h, x.reset = false ∧ bit x.reqs i = true :=
+      fun x hx => hall x (List.mem_cons_of_mem _ hx)
+    simp only [trace, enCount_cons] at hcount
+    rcases cycle_cases hasEn inp hs with ⟨hz, _⟩ | ⟨k, hk, hgb, hc⟩
+    · have := hz i hi; rw [hinp.2] at this; cases this
+    · have hnext : step hasEn n s inp = if advances hasEn inp then 2 ^ ((k + 1) % n) else s := by
+        simp [step, hc, hinp.1]
+      obtain ⟨hp, hs2⟩ := hs
+      cases ha : advances hasEn inp with
+      | false =>
+        -- the register keeps its value; the count does not move
+        rw [ha] at hnext; simp only [Bool.false_eq_true, if_false] at hnext
+        have hpe : (cycle hasEn n s inp).prioEn = false := by rw [hc]; exact ha
+        rw [hpe] at hcount
+        obtain ⟨pre, c, post, htr, hce, hcg, hle⟩ := ih (step hasEn n s inp) p ⟨hp, by rw [hnext]; exact hs2⟩ hrest
+          (by simpa using hcount)
+        refine ⟨cycle hasEn n s inp :: pre, c, post, by simp [trace, htr], hce, hcg, ?_⟩
+        rw [enCount_cons, hpe]; simpa using hle
+      | true =>
+        rw [ha] at hnext; simp only [if_true] at hnext
+        have hpe : (cycle hasEn n s inp).prioEn = true := by rw [hc]; exact ha
+        by_cases hki : k = i
+        · -- i itself is granted in this advancing cycle
+          refine ⟨[], cycle hasEn n s inp, trace hasEn n (step hasEn n s inp) h, by simp [trace], hpe, ?_, by simp [enCount]⟩
+          rw [hc, hki, bit_two_pow]; simp
+        · -- somebody else, not farther from the pointer than i, is granted: i gets closer
+          have hle : dist n p k ≤ dist n p i := by
+            subst hs2; exact grantBit_first hp k hk hgb i hi hinp.2
+          have hdec := dist_decreases p k i hp hk hi hki hle
+          rw [hpe] at hcount
+          obtain ⟨pre, c, post, htr, hce, hcg, hle'⟩ :=
+            ih (step hasEn n s inp) ((k + 1) % n) ⟨Nat.mod_lt _ hn, hnext⟩ hrest (by simp at hcount; omega)
+          refine ⟨cycle hasEn n s inp :: pre, c, post, by simp [trace, htr], hce, hcg, ?_⟩
+          rw [enCount_cons, hpe]; simp; omega
+
+/-- C19_fair: an input that keeps requesting is granted within `n` advancing cycles.  For every history
+    `h` without reset in which input `i` requests all the time and which contains `n` cycles that enable
+    the update (`advances`: all cycles for `RoundRobinArbiter`, the cycles with `en` high for
+    `RoundRobinArbiterEn`), some advancing cycle grants `i`, and fewer than `n` advancing cycles precede it.
+    The window may start in any reachable state. -/
+theorem fair (hasEn : Bool) {n : Nat} (i : Nat) (hi : i < n) (h : List In) (s p : Nat) (hs : Pointer n s p)
+    (hall : ∀ inp ∈ h, inp.reset = false ∧ bit inp.reqs i = true)
+    (hlen : n ≤ (h.filter (advances hasEn)).length) :
+    ∃ pre c post, trace hasEn n s h = pre ++ c :: post ∧
+      c.prioEn = true ∧ bit c.grants i = true ∧ enCount pre < n := by
+  have hn : 0 < n := by omega
+  have hd := dist_lt n p i hn
+  have hcnt := enCount_eq hasEn hn i hi h s p hs hall
+  obtain ⟨pre, c, post, htr, hce, hcg, hle⟩ := fair_within hasEn i hi h s p hs hall (by omega)
+  exact ⟨pre, c, post, htr, hce, hcg, by omega⟩
+
+/-- the plain arbiter: a continuously requesting input is granted within the first `n` cycles -/
+theorem fair_plain {n : Nat} (i : Nat) (hi : i < n) (h : List In) (s p : Nat) (hs : Pointer n s p)
+    (hall : ∀ inp ∈ h, inp.reset = false ∧ bit inp.reqs i = true) (hlen : n ≤ h.length) :
+    ∃ pre c post, trace false n s h = pre ++ c :: post ∧ bit c.grants i = true ∧ pre.length < n := by
+  have hf : h.filter (advances false) = h := by
+    apply List.filter_eq_self.mpr; intro a _; rfl
+  obtain ⟨pre, c, post, htr, _, hcg, hlt⟩ := fair false i hi h s p hs hall (by rw [hf]; exact hlen)
+  refine ⟨pre, c, post, htr, hcg, ?_⟩
+  -- every cycle of the prefix has priority_en high, so its length is the count
+  have hpre : enCount pre = pre.length := by
+    have hn : 0 < n := by omega
+    have hcnt := enCount_eq false hn i hi h s p hs hall
+    rw [hf, htr] at hcnt
+    have hlen2 : (trace false n s h).length = h.length := by
+      clear hcnt hf hlen hall hs htr
+      induction h generalizing s with
+      | nil => rfl
+      | cons x h ih => simp [trace, ih]
+    rw [htr] at hlen2
+    unfold enCount at hcnt ⊢
+    simp only [List.filter_append, List.length_append] at hcnt hlen2
+    have h1 := List.length_filter_le (fun c : Cycle => c.prioEn) pre
+    have h2 := List.length_filter_le (fun c : Cycle => c.prioEn) (c :: post)
+    simp only [List.length_cons] at hlen2 h2
+    omega
+  omega
+
+/-- fairness stated from reset: in every state reachable through a reset, for both variants -/
+theorem fair_reachable (hasEn : Bool) (n : Nat) (hn : 2 ≤ n) (s : Nat) (hr : Reachable hasEn n s)
+    (i : Nat) (hi : i < n) (h : List In)
+    (hall : ∀ inp ∈ h, inp.reset = false ∧ bit inp.reqs i = true)
+    (hlen : n ≤ (h.filter (advances hasEn)).length) :
+    ∃ pre c post, trace hasEn n s h = pre ++ c :: post ∧
+      c.prioEn = true ∧ bit c.grants i = true ∧ enCount pre < n := by
+  obtain ⟨p, hp, _⟩ := onehot_inv hasEn n hn s hr
+  exact fair hasEn i hi h s p hp hall hlen
+
+/-! ## non-vacuity -/
+example : Reachable false 4 1 := Reachable.reset 0 ⟨true, false, 0⟩ rfl
+example : Pointer 4 8 3 := ⟨by decide, by decide⟩
+example : grants 4 0b0110 (2 ^ 3) = 0b0010 := by decide
+example : (cycle true 4 (2 ^ 3) ⟨false, true, 0b0110⟩).next = 2 ^ 2 := by decide
+example : (cycle true 4 (2 ^ 3) ⟨false, false, 0b0110⟩).next = 2 ^ 3 := by decide
+example : (trace false 3 1 [⟨false, false, 7⟩, ⟨false, false, 7⟩, ⟨false, false, 7⟩]).map (·.grants) = [1, 2, 4] := by
+  decide
+
 end PV.C19
